@@ -11,8 +11,8 @@ from common import *
 import model, findings as F
 from props import base
 
-PROPS_MODULES = ["ShexerModel.Props.C07"]
-DEPS = []
+PROPS_MODULES = ["ShexerModel.Props.C07", "ShexerModel.Props.GenStr"]
+DEPS = ["S.remove_corners", "S.decide_literal_type"]
 replay = base.replay
 LANG_STRING = 'http://www.w3.org/1999/02/22-rdf-syntax-ns#langString'
 PFX = {'': 'http://empty.example.org/', 'e': 'http://short.example.com/', 'ex': 'http://example.org/', 'ext': 'http://ext.example.org/ns#', 'xsd': XSD,
